@@ -159,9 +159,9 @@ SEEDS = [
     S("df-else-default", ["C19", "C02"], PV,
       '        else:\n            raise ValueError(\n                "Either permeate temperature or permeate pressure could be stated not both"\n            )\n\n        return (',
       "        else:\n            permeate_nrtl_partial_pressures = (0, 0)\n\n        return ("),
-    S("pure-flux-elif", ["C19", "C12"], MB, "elif permeate_pressure is not None and permeate_temperature is None:", "elif permeate_pressure is not None:"),
+    S("pure-flux-elif", ["C19"], MB, "elif permeate_pressure is not None and permeate_temperature is None:", "elif permeate_pressure is not None:"),
     S("mixture-or", ["C19"], MX, "if self.nrtl_params is None and self.uniquac_params is None:", "if self.nrtl_params is None or self.uniquac_params is None:"),
-    S("curve-none-none-default", ["C19", "C09"], DC,
+    S("curve-none-none-default", ["C19"], DC,
       '        elif self.permeances is None and self.partial_fluxes is None:\n            raise ValueError(\n                "Either Permeances or Fluxes must be specified as functions of feed composition"\n            )',
       "        elif self.permeances is None and self.partial_fluxes is None:\n            self.permeances = []"),
 ]
